@@ -19,6 +19,7 @@ import SkNet.Lemmas.MergeW
 import SkNet.Lemmas.ParisMono
 import SkNet.Lemmas.Reducible
 import SkNet.Lemmas.ParisTerm
+import SkNet.Lemmas.ParisReturns
 
 namespace SkNet.C07
 open SkNet SkNet.Dendro SkNet.Hier
@@ -667,9 +668,11 @@ open SkNet.Agg SkNet.Paris
 /-- **Paris' linkage is reducible** (`reducible`): in exact arithmetic, after `AggregateGraph.merge(n1, n2)` the
     similarity of the new node to any other node `c` is defined and lies between the similarities of `n1` and `n2`
     to `c` (mediant inequality: numerators and denominators add) — in particular
-    `sim(n1 ∪ n2, c) ≤ max (sim(n1, c)) (sim(n2, c))`, so in exact arithmetic a merge of reciprocal nearest
-    neighbours is never higher than a later merge that contains it. (In floating point this can fail by an ulp —
-    F19 — which is why the repaired code clamps the height; validity, `paris_valid`, does not depend on this.) -/
+    `sim(n1 ∪ n2, c) ≤ max (sim(n1, c)) (sim(n2, c))`. This is the one-step inequality only. What is derived from it
+    here: a merge keeps the nearest neighbour of every other node (`SkNet.Paris.isNN_merge`, for any monotone
+    rounding), which is what `paris_returns` needs. That the heights of the unclamped algorithm are monotone along
+    root paths (DESIGN §5 lists it under this name) is *not* proved: the repaired code clamps the height (F19) and
+    `paris_rows_mono` / `paris_valid` rest on the clamp, not on this inequality. -/
 theorem reducible {g : AggGraph ℚ} {n1 n2 c : Nat} (hI : NbInv g.nb g.next) (h12 : n1 ≠ n2)
     (h1 : n1 < g.next) (h2 : n2 < g.next) (hc : c < g.next) (hc1 : c ≠ n1) (hc2 : c ≠ n2)
     (ho1 : 0 < wOf g.outW n1) (ho2 : 0 < wOf g.outW n2) (hoc : 0 < wOf g.outW c)
@@ -739,9 +742,10 @@ theorem paris_terminates (round32 : ℚ → ℚ) (csr : List (List (Nat × ℚ))
           | error e => simp [Except.map]
           | ok D => simp [Except.map]
 
-/-- **Paris, total statement**: on a symmetric graph, with the fuel of `paris_terminates`, `Paris.fit` either raises
-    or returns a valid dendrogram over the `n` nodes (sorted heights when `reorder=True`, heights never decreasing
-    towards the root otherwise). -/
+/-- **Paris, `raises ∨ valid`** (for *any* rounding function and any weights): on a symmetric graph, with the fuel of
+    `paris_terminates`, `Paris.fit` either raises or returns a valid dendrogram over the `n` nodes (sorted heights
+    when `reorder=True`, heights never decreasing towards the root otherwise). That it does not raise is
+    `paris_returns`, under its extra hypotheses (monotone rounding, positive weights of the nodes with a neighbour). -/
 theorem paris_total (round32 : ℚ → ℚ) (csr : List (List (Nat × ℚ))) (outW inW : List ℚ) (reorder : Bool)
     (hsym : NbInv (AggGraph.init csr outW inW).nb csr.length) (fuel : Nat)
     (hfuel : (csr.length + 1) * (2 * csr.length * (2 * csr.length) + 3) ≤ fuel) :
@@ -758,6 +762,83 @@ theorem paris_total (round32 : ℚ → ℚ) (csr : List (List (Nat × ℚ))) (ou
     | some D =>
       obtain ⟨h1, h2⟩ := paris_valid round32 fuel csr outW inW reorder hfit
       exact Or.inr ⟨D, rfl, h1, h2⟩
+
+/-- **Paris returns** (`paris_returns`): for every *monotone* rounding of the similarities (exact arithmetic,
+    round-to-nearest float32), on a graph with `n ≥ 1` nodes given as a symmetric dict of dicts with non-negative
+    weights (`NbInv`) in which every node has a stored entry (the unit diagonal that `Paris.fit` gives to the nodes
+    of null weight) and every node with a neighbour other than itself has positive out- and in-weights, `Paris.fit`
+    with the fuel of `paris_terminates` **does not raise**: it returns a dendrogram, valid over the `n` nodes, with
+    non-decreasing heights when `reorder=True` and heights never decreasing towards the root otherwise.
+    What the hypotheses exclude is exactly what the pinned code got wrong (F20): node weights whose products
+    underflow to 0 — then `similarity` is `-inf`; the repaired code still returns there (`invSim`), the theorem
+    does not need to cover it.  Not covered: the rounding of the double additions inside `merge` (exact in the
+    model), NaN / inf.
+    Proof: besides the invariants of `paris_terminates`, the chain stays a chain of nearest neighbours of the
+    *current* graph after a merge (`isNN_merge`: the similarity to the merged node is a rounded mediant, at most the
+    similarity to the old nearest neighbour, and the new id is the largest, so ties do not move) and never visits
+    a node twice (`nn_not_in_chain`), so every node read from the chain is alive. -/
+theorem paris_returns (round32 : ℚ → ℚ) (hr : Monotone round32) (csr : List (List (Nat × ℚ))) (outW inW : List ℚ)
+    (reorder : Bool) (hn : 1 ≤ csr.length)
+    (hsym : NbInv (AggGraph.init csr outW inW).nb csr.length)
+    (hrows : ∀ x, x < csr.length → ∃ y, K (AggGraph.init csr outW inW).nb x y = true)
+    (hpos : ∀ x, x < csr.length → (∃ y, y ≠ x ∧ K (AggGraph.init csr outW inW).nb x y = true) →
+      0 < Paris.wOf (AggGraph.init csr outW inW).outW x ∧ 0 < Paris.wOf (AggGraph.init csr outW inW).inW x)
+    (fuel : Nat) (hfuel : (csr.length + 1) * (2 * csr.length * (2 * csr.length) + 3) ≤ fuel) :
+    ∃ D, Paris.fit round32 fuel (AggGraph.init csr outW inW) reorder = .ok (some D) ∧
+      ValidDendro csr.length D = true ∧
+      (if reorder then heightsSorted D = true else MonoPaths csr.length D = true) := by
+  have hkeys : ∀ x, x ∈ Dict.keys (AggGraph.init csr outW inW).sizes ↔ x < csr.length := by
+    intro x
+    simp [AggGraph.init, Dict.keys]
+  have hnext : (AggGraph.init csr outW inW).next = csr.length := rfl
+  have hR0 : RetInv round32 csr.length
+      ({ g := AggGraph.init csr outW inW, chain := [], rows := [], comps := [] } : PState ℚ) := by
+    refine ⟨⟨⟨_, pinv_init csr outW inW⟩, hsym⟩, ?_, ?_, ?_, by simp, by simp, trivial⟩
+    · intro x hx; exact hrows x ((hkeys x).mp hx)
+    · intro x y _ hK _
+      have := (K_lt (next := csr.length) hsym hK).2
+      exact (hkeys y).mpr this
+    · intro x hx hex; exact hpos x ((hkeys x).mp hx) hex
+  have hmu : mu round32 (2 * csr.length)
+      ({ g := AggGraph.init csr outW inW, chain := [], rows := [], comps := [] } : PState ℚ) < fuel := by
+    unfold mu pot
+    have : (AggGraph.init csr outW inW).sizes.length = csr.length := by simp [AggGraph.init]
+    simp only [this]
+    rw [Nat.succ_mul] at hfuel
+    omega
+  obtain ⟨st, hloop, hRf, hsz⟩ := chainLoop_ret hr (AggGraph.init csr outW inW).next fuel _ hR0 hmu
+  obtain ⟨L, hP⟩ := hRf.tinv.pinv
+  -- at least one component has been recorded
+  have hcomps : st.comps ≠ [] := by
+    have hLpos := liveAfter_nonempty st.rows 0 _ L (by simpa using linv_init (List.replicate csr.length 1)) hP.live
+      (by simp [liveInit]; omega)
+    have hc := hP.count
+    intro e
+    have : L.length = 0 := by rw [hc, hsz, e]; rfl
+    omega
+  obtain ⟨rows, hrowsEq⟩ : ∃ rows, joinComponents st.g.next st.comps st.rows = .ok rows := by
+    unfold joinComponents
+    cases hrev : st.comps.reverse with
+    | nil => exact absurd (by simpa using hrev) hcomps
+    | cons p rest => obtain ⟨a, b⟩ := p; exact ⟨_, rfl⟩
+  have hfitRows : fitRows round32 fuel (AggGraph.init csr outW inW) = .ok (some rows) := by
+    unfold fitRows
+    simp only [bind, Except.bind, hloop, hrowsEq, pure, Except.pure]
+  have hv := paris_valid_partial round32 fuel csr outW inW hfitRows
+  have hm := paris_rows_mono round32 fuel csr outW inW hfitRows
+  have hfit : ∃ D, Paris.fit round32 fuel (AggGraph.init csr outW inW) reorder = .ok (some D) := by
+    unfold Paris.fit
+    simp only [bind, Except.bind, hfitRows]
+    cases reorder with
+    | false => exact ⟨rows, rfl⟩
+    | true =>
+      obtain ⟨D', hD', _⟩ := reorder_valid_core hv hm
+      simp only [if_true]
+      rw [hD']
+      exact ⟨D', rfl⟩
+  obtain ⟨D, hD⟩ := hfit
+  obtain ⟨h1, h2⟩ := paris_valid round32 fuel csr outW inW reorder hD
+  exact ⟨D, hD, h1, h2⟩
 
 /-- non-vacuity: the 4-cycle with unit weights (every similarity is tied, so the tie rule decides every step)
     satisfies the hypothesis, and with the fuel of the theorem `Paris.fit` returns a valid sorted dendrogram -/
@@ -804,6 +885,32 @@ example : NbInv (AggGraph.init [[(1, (1 : ℚ) / 8), (3, 1 / 8)], [(0, 1 / 8), (
     unfold getEntry
     rw [hrow]
     rcases x with _ | _ | _ | _ | x <;> rcases y with _ | _ | _ | _ | y <;> simp [Dict.get?]
+
+/-- non-vacuity of the remaining hypotheses of `paris_returns` on the same 4-cycle: every node has a stored entry and
+    positive weights, the identity is monotone -/
+example : Monotone (id : ℚ → ℚ) ∧
+    (∀ x, x < 4 → ∃ y, K (AggGraph.init [[(1, (1 : ℚ) / 8), (3, 1 / 8)], [(0, 1 / 8), (2, 1 / 8)],
+        [(1, 1 / 8), (3, 1 / 8)], [(0, 1 / 8), (2, 1 / 8)]] [1 / 4, 1 / 4, 1 / 4, 1 / 4] [1 / 4, 1 / 4, 1 / 4, 1 / 4]).nb
+          x y = true) ∧
+    (∀ x, x < 4 → 0 < Paris.wOf (AggGraph.init [[(1, (1 : ℚ) / 8), (3, 1 / 8)], [(0, 1 / 8), (2, 1 / 8)],
+        [(1, 1 / 8), (3, 1 / 8)], [(0, 1 / 8), (2, 1 / 8)]] [1 / 4, 1 / 4, 1 / 4, 1 / 4] [1 / 4, 1 / 4, 1 / 4, 1 / 4]).outW x ∧
+      0 < Paris.wOf (AggGraph.init [[(1, (1 : ℚ) / 8), (3, 1 / 8)], [(0, 1 / 8), (2, 1 / 8)],
+        [(1, 1 / 8), (3, 1 / 8)], [(0, 1 / 8), (2, 1 / 8)]] [1 / 4, 1 / 4, 1 / 4, 1 / 4] [1 / 4, 1 / 4, 1 / 4, 1 / 4]).inW x) := by
+  refine ⟨monotone_id, ?_, ?_⟩
+  · intro x hx
+    rcases x with _ | _ | _ | _ | x
+    · exact ⟨1, by decide +kernel⟩
+    · exact ⟨0, by decide +kernel⟩
+    · exact ⟨1, by decide +kernel⟩
+    · exact ⟨0, by decide +kernel⟩
+    · omega
+  · intro x hx
+    rcases x with _ | _ | _ | _ | x
+    · exact ⟨by decide +kernel, by decide +kernel⟩
+    · exact ⟨by decide +kernel, by decide +kernel⟩
+    · exact ⟨by decide +kernel, by decide +kernel⟩
+    · exact ⟨by decide +kernel, by decide +kernel⟩
+    · omega
 
 end parisTerminates
 
